@@ -141,11 +141,20 @@ class CFG:
                 if op not in ("&&", "||"):
                     return None
             tc = blk.tc
-            # the block evaluates only the right-most operand of a short-circuit chain;
-            # the operands to its left were decided on earlier edges
-            while self.fn.nodes[tc]["k"] == "bin" and self.fn.nodes[tc]["op"] in ("&&", "||"):
-                tc = self.fn.nodes[tc]["r"]
-            return (tc, k == 0)
+            # Direct shape: the block evaluates only the right-most operand of a short-circuit chain (the operands to
+            # its left were decided on earlier edges) -> the edge tells the truth of that operand.
+            # Joined shape (clang merges the value of a nested && / || in a join block and branches on it there): the
+            # edge tells the truth of the WHOLE condition; cmp_fact decomposes it where that is decisive.
+            last = None
+            for e in reversed(blk.elems):
+                last = e[2] if isinstance(e, tuple) else e
+                break
+            t2 = tc
+            while self.fn.nodes[t2]["k"] == "bin" and self.fn.nodes[t2]["op"] in ("&&", "||"):
+                t2 = self.fn.nodes[t2]["r"]
+            if t2 != tc and last == tc:
+                return (tc, k == 0)          # joined: whole condition
+            return (t2, k == 0)
         return None
 
     def edges(self):
